@@ -8,6 +8,7 @@ package supervisor
 // on a command channel and performs, on command, Signal / RunGroup with its own context, or returns.
 // After every step: projection of the tree (dn, state, ctx.Err() != nil, group), pending requests, live instances.
 import (
+	"sync/atomic"
 	"context"
 	"encoding/json"
 	"errors"
@@ -310,16 +311,28 @@ func vScenario(r *vrng, wellBehaved bool, maxSteps int, script []vStep) (steps [
 		return q
 	}
 	procCall := func(st *vStep, f func()) {
-		defer func() {
-			if x := recover(); x != nil {
+		// the handler runs on a goroutine of its own under a watchdog: a handler that never returns (it waits for a lock it holds
+		// itself) is the supervisor's only processor goroutine stuck for good, and must be a finding here, not a hang of the harness
+		fin := make(chan interface{}, 1)
+		go func() {
+			defer func() { fin <- recover() }()
+			f()
+		}()
+		select {
+		case x := <-fin:
+			if x != nil {
 				st.Out = "processor-panic"
 				st.Msg = fmt.Sprint(x)
 				dead = true
 				h.say(fmt.Sprintf("PROCESSOR PANIC in step %d (%s %s): %v", len(steps), st.Ev, st.DN, x))
 				// the handler panicked with the supervisor mutex held (deferred Unlock ran during the unwinding)
 			}
-		}()
-		f()
+		case <-time.After(5 * time.Second):
+			st.Out = "processor-stuck"
+			dead = true
+			atomic.AddInt32(&vDetStalls, 1)
+			h.say(fmt.Sprintf("THE PROCESSOR'S HANDLER DID NOT RETURN within 5 s (step %d, %s %s %s): the supervisor's only processor goroutine is stuck: no exit is recorded, nothing is restarted, signalled or stopped any more", len(steps), st.Ev, st.DN, st.Kind))
+		}
 	}
 	command := func(in *vInst, c vCmd, st *vStep) {
 		in.cmd <- c
@@ -734,6 +747,9 @@ func vScenario(r *vrng, wellBehaved bool, maxSteps int, script []vStep) (steps [
 	return steps, h.monitor, h.maxLive, h.scriptStop
 }
 
+// handlers that did not return, over the whole run: after two the remaining scenarios are skipped (each would wait again)
+var vDetStalls int32
+
 func (h *vH) tinyBackoff2(_ map[string]bool) { h.tinyBackoff() }
 
 // ev / dn / kind of the i-th pooled request
@@ -845,6 +861,9 @@ func TestVerifC18Det(t *testing.T) {
 	}
 	sort.Strings(names)
 	for i, nm := range names {
+		if atomic.LoadInt32(&vDetStalls) >= 2 {
+			break
+		}
 		steps, mon, maxLive, stop := vScenario(&vrng{s: 1}, false, 0, vScripts[nm])
 		if mon == nil {
 			mon = []string{}
@@ -855,7 +874,7 @@ func TestVerifC18Det(t *testing.T) {
 	if verifThorough() {
 		n = 1500
 	}
-	for sc := 0; sc < n; sc++ {
+	for sc := 0; sc < n && atomic.LoadInt32(&vDetStalls) < 2; sc++ {
 		well := sc%5 != 4 // every fifth scenario lets Done runnables linger (the recorded class)
 		steps, mon, maxLive, _ := vScenario(&vrng{s: r.next()}, well, 25+r.below(40), nil)
 		if mon == nil {
